@@ -68,7 +68,7 @@ def contract_try_as_register(eng, operand, state):
 
 
 def install(eng, *names):
-    table = {"get_as_int": contract_get_as_int, "wait": b_wait, "try_as_register": contract_try_as_register}
+    table = {"get_as_int": contract_get_as_int, "wait": contract_wait, "try_as_register": contract_try_as_register}
     for n in names:
         eng.contracts[n] = table[n]
 
